@@ -4,8 +4,8 @@ package main
 // ingress.ServicesFilter, node / involved-object / selector-match filters.
 
 import (
-	"go/token"
 	"fmt"
+	"go/token"
 	"strings"
 
 	"golang.org/x/tools/go/ssa"
@@ -186,20 +186,23 @@ func checkPodsFilters(c *Ctx, orderOnly bool) {
 			}
 			var copied, sorted *Term
 			order := 0
+			copyAt, sortAt := -1, -1
 			for i, e := range pa.Effects {
 				if e.Kind == "builtin" && e.Method == "copy" && len(e.Args) == 2 && isParamT(e.Args[1], paramName) {
 					copied = e.Args[0]
+					copyAt = i
 				}
 				if e.Kind == "call" && e.Fn != nil && fnName(e.Fn) == "sort.Slice" && len(e.Args) == 2 {
 					sorted = e.Args[0]
 					order = i
+					sortAt = i
 				}
 				if e.Kind == "append" && sorted == nil {
 					sortedOK, sortDetail = false, "elements are appended before the sources are sorted"
 				}
 				_ = order
 			}
-			if copied == nil || sorted == nil || !sameTerm(copied, sorted) || copied.K != "makeslice" {
+			if copied == nil || sorted == nil || !sameTerm(copied, sorted) || copied.K != "makeslice" || copyAt > sortAt {
 				sortedOK, sortDetail = false, "the sources are not copied into a fresh slice that is then sorted (argument order would leak into the filter and break equality of filters built from the same sources)"
 			} else {
 				base = copied
